@@ -104,11 +104,11 @@ Proof. exact start_params_nul_nothing. Qed.
 Print Assumptions C20_start_params_nul_nothing.
 
 (* Whatever the world, the DAG id and the body: an answer other than 200 means the world is unchanged and nothing
-   was started or stopped (only a retry whose process then fails has been started).  For action rename the
-   premise name_okb (C18: refuted for names with a foreign extension). *)
-Theorem C20_refused_nothing : forall valid graph_ok meta_ok dir retry_ok a id b c a' ev,
+   was started or stopped (only a retry whose process then fails has been started).  Full statement since fe0ec16;
+   standing assumptions: absolute DAGs directory, and for action rename both ids are single path elements. *)
+Theorem C20_refused_nothing : forall valid graph_ok meta_ok dir retry_ok, is_abs dir = true -> forall a id b c a' ev,
   post valid graph_ok meta_ok dir retry_ok a id b = (c, a', ev) -> c <> 200 ->
-  (b_action b = Some "rename" -> name_okb dir id = true /\ name_okb dir (b_value b) = true) ->
+  (b_action b = Some "rename" -> has_slash id = false /\ has_slash (b_value b) = false) ->
   a' = a /\ (ev = [] \/ (b_action b = Some "retry" /\ b_reqid b <> "" /\ retry_ok = false)).
 Proof. exact refused_nothing. Qed.
 Print Assumptions C20_refused_nothing.
